@@ -260,6 +260,10 @@ func c18EndToEnd(c *Case) {
 	defer dropStore(st)
 	pass := []byte(fmt.Sprintf("secret-%d", c.Index))
 	bf := uint([]int{2, 4, 4096}[r.Intn(3)])
+	bulk := c.Index%2 == 0
+	if bulk && bf == 4096 {
+		bf = 4 // a flush of many nodes encrypts them concurrently
+	}
 	cfgFor := func(p []byte) kv.Config {
 		cfg := kv.Config{
 			Storage:      &kv.S3BucketInfo{EndpointURL: fs3.Endpoint(st.Name, "e2e"), BucketName: "b", Prefix: "enc"},
@@ -282,12 +286,8 @@ func c18EndToEnd(c *Case) {
 	want := map[string]string{}
 	idxOf := map[string]int{}
 	n := r.Range(5, 60)
-	if c.Index%2 == 0 {
-		// bulk: a flush of many nodes encrypts them concurrently
+	if bulk {
 		n = r.Range(600, 1500)
-		if bf == 4096 {
-			bf = 4
-		}
 	}
 	for i := 0; i < n; i++ {
 		mk, mv := r.Bytes(16), r.Bytes(16)
